@@ -33,6 +33,7 @@ structure St where
   dead : Bool
   fixed : Bool                   -- which loop: true = repaired code (default), false = as found (`variant asis`)
   d61 : Bool                     -- operand resolution of fixes/D61.patch (default); false with `variant asis` / `variant main`
+  scft : Bool                    -- the current `cft` line was written `x-w2d s-cft` (escapes decoded)
   rejected : Bool                -- the `cft` op answered BadParameter (fixes/D60.patch): `f` and `rf` do not exist
 
 def readerQos : Hist.Qos :=
@@ -46,13 +47,19 @@ def readerQos : Hist.Qos :=
 
 def init : St :=
   { pre := 0, ty := none, filter := none, hold := false, coalesce := 0, stash := none, held := [],
-    rf := Hist.St.init readerQos true, rc := Hist.St.init readerQos true, dead := false, fixed := true, d61 := true, rejected := false }
+    rf := Hist.St.init readerQos true, rc := Hist.St.init readerQos true, dead := false, fixed := true, d61 := true, scft := false, rejected := false }
 
 def inI32 (v : Int) : Bool := decide (-2147483648 ≤ v ∧ v ≤ 2147483647)
 
 /-- instance handle as the Nat the history model wants (two's complement of the i32 key) -/
 def hOf (id : Int) : Nat := (id % 4294967296).toNat
 def idOf (h : Nat) : Int := if h < 2147483648 then (h : Int) else (h : Int) - 4294967296
+
+/-- `\s` stands for a blank inside string values, filter parameters and expressions of the `ks` scenarios -/
+def unesc : List Char → List Char
+  | '\\' :: 's' :: r => ' ' :: unesc r
+  | c :: r => c :: unesc r
+  | [] => []
 
 def isHex (s : String) : Bool :=
   s.length % 2 == 0 && s.length > 0 && s.toList.all (fun c => c.isDigit || ('a' ≤ c && c ≤ 'f'))
@@ -65,10 +72,10 @@ def mkData (ty : Ty) (id : Int) (v : String) : Option (Data × String) :=
     | none => none
   | .kb => if isHex v ∧ v.length ≤ 32 then some ([⟨"id".toList, .int id⟩, ⟨"value".toList, .other⟩], s!"{id}:{v}") else none
   | .ks =>
-    let okc := v.toList.all (fun c => c.isAlphanum || c == '_' || c == '%')
+    let okc := v.toList.all (fun c => c.isAlphanum || c == '_' || c == '%' || c == '\\')
     if !okc || v.isEmpty then none
     else
-      let name := if v == "%e" then [] else v.toList
+      let name := if v == "%e" then [] else unesc v.toList
       some ([⟨"id".toList, .int id⟩, ⟨"name".toList, .str name⟩], s!"{id}:{v}")
 
 def showInfo (i : Hist.Info) : String :=
@@ -225,9 +232,19 @@ def step (s : St) (line : String) : St × String :=
       | some ty => ({ s with pre := 4, ty := some ty }, "ok *")
       | none => (s, "bad-op")
     else if s.pre == 6 then
+      match (match ts with
+             | "x-w2d" :: "s-cft" :: r => if s.ty == some Ty.ks then some (true, "cft" :: r) else none
+             | _ => some (false, ts)) with
+      | none => (s, "bad-op")
+      | some (esc, ts) =>
+      let s := { s with scft := esc }
       match ts with
-      | "cft" :: "f" :: "P2" :: "t2" :: "F" :: p :: e :: es =>
-        let f : Filter := { expr := (joinSp (e :: es)).toList, params := parseParams p }
+      | kw :: "f" :: "P2" :: "t2" :: "F" :: p :: e :: es =>
+        -- `cft …`, or for the string type `x-w2d s-cft …` (handled below by re-dispatch) with `\s` = blank
+        if kw != "cft" then (s, "bad-op") else
+        let esc := s.scft
+        let f : Filter := { expr := if esc then unesc (joinSp (e :: es)).toList else (joinSp (e :: es)).toList,
+                            params := if esc then (parseParams p).map unesc else parseParams p }
         -- the as-found variant accepts every filter (D60)
         if s.fixed && !(match s.ty with
             | some ty => if s.d61 then validate (typeDesc ty) f else validateOld (typeDesc ty) f
